@@ -734,7 +734,7 @@ def shape_ind(tier, seed):
     """Apalache: the shape part of the storage invariant is inductive for UNBOUNDED inline capacity / size / capacity
     (spec/ShapeInd.tla).  Design level only; a failure is an error of the model, reported as internal error."""
     src = os.path.join(P.SPEC, 'ShapeInd.tla')
-    wd = os.path.join(P.CACHE, 'apalache', P.sha('shapeind', P.file_sha(src)))
+    wd = os.path.join(P.CACHE, 'apalache', P.sha('shapeind', P.file_sha(src), P.file_sha(os.path.join(P.SPEC, 'ShapeProof.tla'))))
     okf = os.path.join(wd, 'ok')
     with P.Lock(wd):
         if not os.path.exists(okf):
@@ -747,11 +747,21 @@ def shape_ind(tier, seed):
                 if 'The outcome is: NoError' not in out:
                     raise RuntimeError('Apalache: ShapeInd %s step failed:\n%s' % (init, out[-2000:]))
             shutil.rmtree(os.path.join(wd, 'out'), ignore_errors=True)
-            open(okf, 'w').write('ok')
+            # the same statement as a machine-checked proof (TLAPS): Spec => []Inv
+            shutil.copy(os.path.join(P.SPEC, 'ShapeProof.tla'), os.path.join(wd, 'ShapeProof.tla'))
+            p = subprocess.run(['tlapm', '--toolbox', '0', '0', 'ShapeProof.tla'], cwd=wd, stdout=subprocess.PIPE, stderr=subprocess.STDOUT, timeout=1800)
+            out = p.stdout.decode('utf-8', 'replace')
+            import re as _re
+            mm = _re.search(r'All (\d+) obligations? proved', out)
+            if not mm:
+                raise RuntimeError('TLAPS: ShapeProof not proved:\n%s' % out[-2000:])
+            open(okf, 'w').write(mm.group(1))
+    nobl = int(open(okf).read().strip() or 0) if open(okf).read().strip().isdigit() else 0
     return dict(lines=0, ops=0, restarts=0, skipped=0, sample=[], sigs={}, nlines={}, violations=[], stims=0, stims_total=0, mc=None,
                 drv='ShapeInd', drvconf=None, fmode=0,
                 label='design level (Apalache, spec/ShapeInd.tla): Init => Inv and Inv /\\ Next => Inv\' for unbounded N, size, capacity',
-                coverage_extra=dict(apalache_inductive_invariant='ShapeInd.Inv: base and inductive step discharged (unbounded integers)'))
+                coverage_extra=dict(apalache_inductive_invariant='ShapeInd.Inv: base and inductive step discharged (unbounded integers)',
+                                    tlaps_proof='spec/ShapeProof.tla: Spec => []Inv, %d obligations, all proved by tlapm' % nobl, tlaps_obligations=nobl, tlaps_discharged=nobl))
 
 
 EXTRA = {
